@@ -403,12 +403,17 @@ package ro
 
 //@ operator Range
 //@   props C04 C09 C08
+//@   note [start:end): start is emitted, end is not; ascending or descending by 1 according to the order of the bounds
 //@   otherwise start == end : returns Empty()
+//@   requires (start < end && sign == 1) || (start > end && sign == 0 - 1)
 //@   on subscribe(ctx, destination) : emits loop.L0, Complete(ctx)
 
 //@ loop Range$1#0
 //@   noexit
+//@   invariant (start >= end || (start <= cursor && cursor <= end)) && (start <= end || (end <= cursor && cursor <= start))
+//@   exit cursor == end
 //@   iteration emits destination.NextWithContext(ctx, cursor)
+//@   iteration advances cursor == atiter(cursor) + sign
 
 // ---------------------------------------------------------------------------
 // bridges (C17)
